@@ -185,6 +185,17 @@ def gen_inputs(ctx):
                 break
     out.append(("nterm-asp", pdbgen.text(pdbgen.nterm_asp_fragment())))
     out.append(("nterm-asp-hbond", pdbgen.text(pdbgen.nterm_asp_hbond_fragment())))
+    # a chain the first conformation owns only through topping-up: its groups still have their blocks in the table
+    cl = pdbgen.chain_in_later_conformation(rnd)
+    if cl is not None:
+        out.append(("chain-only-in-conformation-B", pdbgen.text(cl)))
+    # an ensemble of two models that differ strongly (a side chain turned away): determinants differ between the conformations,
+    # so every conformation must still add up after the average has been formed
+    for n, t in pdbgen.test_files(["1HPX"] if ctx.quick() else ["1HPX", "3SGB"]):
+        ls = [l for l in pdbgen.lines_of(t) if l.startswith("ATOM")]
+        moved = [pdbgen.set_coords(l, *[round(c + (4.0 if l[17:20] in ("ASP", "GLU", "LYS", "ARG", "HIS", "TYR") and l[12:16].strip() not in ("N", "CA", "C", "O", "CB") else 0.0), 3)
+                                      for c in pdbgen.coords(l)]) for l in ls]
+        out.append((n + "-two-model-ensemble", "MODEL        1\n" + pdbgen.text(ls) + "ENDMDL\nMODEL        2\n" + pdbgen.text(moved) + "ENDMDL\n"))
     return out
 
 
